@@ -591,7 +591,11 @@ func main() {
 		}
 		var tasks []task
 		for _, s := range scens {
-			for _, m := range []int{1, 2} {
+			sizes := []int{1, 2}
+			if r.Thorough() {
+				sizes = []int{1, 2, 3}
+			}
+			for _, m := range sizes {
 				tasks = append(tasks, task{s, m})
 			}
 		}
@@ -656,7 +660,11 @@ func main() {
 
 	// ---------------- (c) ----------------
 	if want("c") {
-		st := checkDiffs(4, func(sig, what, detail string) {
+		maxLen := 4
+		if r.Thorough() {
+			maxLen = 5
+		}
+		st := checkDiffs(maxLen, func(sig, what, detail string) {
 			col.add(2e6, sig, what, map[string]interface{}{"detail": detail})
 		})
 		evaluations += int64(st.pairs)
@@ -665,7 +673,7 @@ func main() {
 		cov["c_equal_pairs"] = st.equalPairs
 		cov["c_nonempty_diffs"] = st.nonEmpty
 		cov["c_pairs_by_number_of_edits"] = fmt.Sprint(st.edits)
-		cov["c_exhaustive_within_bound"] = "all ordered pairs of lists of length <= 4 over {a,b,c}"
+		cov["c_exhaustive_within_bound"] = fmt.Sprintf("all ordered pairs of lists of length <= %d over {a,b,c}", maxLen)
 	}
 
 	var sigs []string
